@@ -21,6 +21,7 @@ var table = map[string]func(tier string) int{
 	"C10": checks.C10,
 	"C11": checks.C11,
 	"C16": checks.C16,
+	"C17": checks.C17,
 	"C20": checks.C20,
 }
 
